@@ -108,7 +108,8 @@ class Proj:
     def fp_container(self, c):
         return ("C", c.name, c.max_volume, c.volume,
                 tuple(sorted((self.fp_sub(s), a) for s, a in c.contents.items())),
-                getattr(c, "instructions", None), repr(sorted(getattr(c, "experimental_conditions", {}).items())))
+                getattr(c, "instructions", None), repr(sorted(getattr(c, "experimental_conditions", {}).items())),
+                tuple(sorted(s.name for s in c.get_substances())))      # what the (cached) observer reports is part of the value
 
     def fp_plate(self, p):
         return ("P", p.name, p.make, p.n_rows, p.n_columns, tuple(p.row_names), tuple(p.column_names),
